@@ -75,7 +75,10 @@ TOL = {
     "Guderley": 1e-5,      # reduced oracle (Lazarus time); measured below
     "RMTV": 1e-8,          # measured 1.8e-13
 }
-SDRZ_ZONE_TOL = 1e-4       # linear interpolation in a 201-point table: measured below
+SDRZ_ZONE_TOL = 3e-4       # linear interpolation in a 201-point table: measured 1.2e-5
+# a discontinuity is a contact when no mass crosses it: |u - s| <= CTOL x velocity scale on both sides
+CTOL = {"GenEOS": 3e-3, "GenEOS_table": 3e-3, "EHEP": 1e-5}
+CTOL_DEFAULT = 1e-6
 GUDERLEY_FACTOR = 0.750024322   # t_user = 0.750024322 (t_Lazarus + 1)  (ramsey.py; finding guderley-time-units)
 
 
@@ -101,7 +104,7 @@ def tasks(tier, seed):
 def generic_cases(A, t, cnt):
     """Locate, track and judge every discontinuity of the profile at time t.  Returns (cases, info)."""
     name = A.fam["name"]
-    tol = TOL[name]
+    ctol = CTOL.get(name, CTOL_DEFAULT)
     a, b = A.window(t)
     pad, xtol = 0.0, A.xtol
     if hasattr(A, "cell"):
@@ -120,11 +123,11 @@ def generic_cases(A, t, cnt):
             if s is None:
                 continue
             speeds.append(s)
-            kind, res = J.jump_residuals(j["L"], j["R"], s, ctol=tol, q=A.q, energy=A.energy, Vfloor=1e-6 * j["V"])
+            kind, res = J.jump_residuals(j["L"], j["R"], s, ctol=ctol, q=A.q, energy=A.energy, Vfloor=1e-6 * j["V"])
             kinds.add(kind)
             if name == "Guderley":
                 # reduced oracle for the recorded defect (velocities are per unit Lazarus time, positions move in user time)
-                _, resL = J.jump_residuals(j["L"], j["R"], s * GUDERLEY_FACTOR, ctol=tol, Vfloor=1e-6 * j["V"])
+                _, resL = J.jump_residuals(j["L"], j["R"], s * GUDERLEY_FACTOR, ctol=ctol, Vfloor=1e-6 * j["V"])
                 res.update({"rhL:" + c.split(":", 1)[1]: v for c, v in resL.items()})
             if A.origin is not None and kind == "shock":
                 x0, t0 = A.origin
@@ -247,7 +250,7 @@ def bbnoh_reduced(A, t, case):
     R = np.array([rho_pre, ic[1], ic[2], e0, 0.0])
     best = {}
     for s in case["speeds"]:
-        _, res = J.jump_residuals(case["L"], R, s, ctol=TOL["BBNoh"])
+        _, res = J.jump_residuals(case["L"], R, s, ctol=CTOL_DEFAULT)
         for c, v in res.items():
             best["rhIC:" + c.split(":", 1)[1]] = min(best.get("rhIC:" + c.split(":", 1)[1], np.inf), v)
     return best
